@@ -22,6 +22,7 @@ type Run struct {
 	Seed     int
 	Level    string
 	Dir      string // /verif
+	OutDir   string // where evidence/ and replays/ are written (VERIF_EVIDENCE_DIR, default Dir)
 
 	mu         sync.Mutex
 	start      time.Time
@@ -61,6 +62,10 @@ func Start(property, level string) *Run {
 	}
 	if budget > 0 {
 		r.deadline = r.start.Add(time.Duration(budget) * time.Second)
+	}
+	r.OutDir = os.Getenv("VERIF_EVIDENCE_DIR")
+	if r.OutDir == "" {
+		r.OutDir = r.Dir
 	}
 	r.loadKnown()
 	return r
@@ -166,7 +171,7 @@ func (r *Run) Finish(cov Coverage, assumptions []string) {
 		keys = append(keys, k)
 	}
 	sort.Strings(keys)
-	rdir := filepath.Join(r.Dir, "replays", r.Property)
+	rdir := filepath.Join(r.OutDir, "replays", r.Property)
 	for i, k := range keys {
 		v := r.viol[k]
 		os.MkdirAll(rdir, 0o755)
@@ -219,9 +224,9 @@ func (r *Run) Finish(cov Coverage, assumptions []string) {
 		"wall_s":      float64(int(wall*100)) / 100,
 		"violations":  r.violCount,
 	}
-	os.MkdirAll(filepath.Join(r.Dir, "evidence"), 0o755)
+	os.MkdirAll(filepath.Join(r.OutDir, "evidence"), 0o755)
 	b, _ := json.MarshalIndent(evd, "", " ")
-	if err := os.WriteFile(filepath.Join(r.Dir, "evidence", r.Property+".json"), append(b, '\n'), 0o644); err != nil {
+	if err := os.WriteFile(filepath.Join(r.OutDir, "evidence", r.Property+".json"), append(b, '\n'), 0o644); err != nil {
 		fmt.Fprintf(os.Stderr, "cannot write evidence: %v\n", err)
 		os.Exit(2)
 	}
